@@ -126,6 +126,13 @@ def gen_cases(ctx):
             for qs in ([], sorted(rng.sample(range(n), 10), reverse=True)):
                 for d in rng.sample(grid[1:-1], 2):
                     mk("measure", n, [float2bits(x) for x in v], "C", qs, draw=float2bits(d), big=True)
+    # 17 qubits measured in one call (131072 outcomes: the outcome no longer fits 16 bits), on a basis state with bit 16 set and on a
+    # superposition of two basis states that differ in bit 16 only
+    n = 17; dim = 1 << n
+    for ks in ([(1 << 16) + 5], [5, (1 << 16) + 5]):
+        v = [0.0] * (2 * dim)
+        for j, k in enumerate(ks): v[2 * k + j] = 1.0 if len(ks) == 1 else (0.6, 0.8)[j]
+        mk("measure", n, [float2bits(x) for x in v], "C", [], draw=float2bits(0.7), big=True)
     # the generator itself: 4 threads that start together measure |+...+> (12 qubits) 12 times each - no two records may coincide
     # (probability 2^-144 per pair for independent draws); 256 shots of one measure_n on the same state - at least 200 distinct outcomes
     # (about 248 expected; fewer than 200 has probability below 1e-25)
